@@ -841,10 +841,17 @@ func TestC12SteadyReader(t *testing.T) {
 		}
 		next, worstGap := 0, time.Duration(0)
 		t0 := time.Now()
+		lastRead := t0
 		for {
 			rctx, cancel := context.WithTimeout(ctx, waitLong)
 			_, b, err := c.Read(rctx)
 			cancel()
+			// the time from one completed read to the next (pause plus waiting for the frame): output is
+			// always pending, so a long one means this process was held up, the relay's timers included
+			if g := time.Since(lastRead); g > worstGap && err == nil {
+				worstGap = g
+			}
+			lastRead = time.Now()
 			if err != nil {
 				if worstGap > opt.SendTimeout/3 {
 					col.Exclude("steady-reader:reader-held-up")
@@ -865,11 +872,7 @@ func TestC12SteadyReader(t *testing.T) {
 					Observed: "frame starts with " + string(b[:40]), Expected: want})
 			}
 			next++
-			g0 := time.Now()
 			time.Sleep(perFrame)
-			if g := time.Since(g0); g > worstGap {
-				worstGap = g
-			}
 		}
 		if next != nmsg {
 			hx.Fail(t, ev.Failure{Property: "C12", Signature: "output-lost-steady-reader", Clause: "every message the handler emits reaches the client", Case: desc, Observed: fmt.Sprintf("%d of %d messages before the end marker", next, nmsg), Expected: "all"})
